@@ -3,8 +3,9 @@
 Leg M   : TLC on specs/ReqContext (repaired variant MinMaxPropagation = TRUE): every program of up to N tasks / contexts / wire
           requests, every interleaving and completion order, every with block left normally or by an exception (failed
           sub-request); invariants SpanStart, SpanEnd, LeafExact, action property NoLeak.
-          Self-test: the as-written variant (MinMaxPropagation = FALSE) must violate SpanStart / SpanEnd in the model; TLC's
-          counterexample is executed on the real code as one more S2C case.
+          Self-tests: the as-written propagation (MinMaxPropagation = FALSE) must violate SpanStart / SpanEnd in the model, TLC's
+          counterexamples are executed on the real code as further S2C cases; the as-written caller (StreamsAwaited = FALSE: tasks
+          left behind after a failed sub-request, Composite before f822262) must violate the property in the model, too.
 Leg S2C : TLC -simulate behaviours (wider bounds) are completed to closed scenarios and executed
           (a) step by step by scripted coroutines on the REAL RequestContextHolder / RequestContextManager (virtual clock),
           (b) projected onto composite operations and run by the REAL AsyncExecutor (on-error=continue) -> Composite ->
@@ -24,6 +25,7 @@ from ..core import Violation
 from ..tlaparse import parse_simulation_file, parse_state, parse_value
 
 ACTIONS = ["Enter", "WireStart", "WireEnd", "Exit", "Spawn", "Join"]
+UNAWAITED = "a task left its block / ended while tasks it created inside were still running (caller as written before f822262, StreamsAwaited=FALSE)"
 KNOWN_BEHAVIOUR = "as-written propagation (first child to exit sets start if absent, last child to exit overwrites end, None included)"
 
 
@@ -111,7 +113,6 @@ def _features(tr, feats):
         feats["composite-with-sub-requests"] = feats.get("composite-with-sub-requests", 0) + 1
     if any(e["a"] == "Exit" and e["raised"] for e in ev):
         feats["exit-by-exception"] = feats.get("exit-by-exception", 0) + 1
-    # a failed wire request whose end is the latest of its enclosing request: WireEnd, Exit(raised) ... and nothing later
     if any(e["a"] == "Sample" and not e["ok"] for e in ev):
         feats["composite-with-failed-sub-request"] = feats.get("composite-with-failed-sub-request", 0) + 1
 
@@ -153,37 +154,6 @@ def _kinds(details):
     return sorted(kinds)
 
 
-def _abandoned_stats(tr, stats):
-    """A stream failed while sibling streams were in flight: Composite cancels them without awaiting them, the request
-    context is left and the sample is taken while they still run.  Outside the usage discipline of the specification; what
-    the sample says is measured here and reported as a note."""
-    ev = tr["ev"]
-    for pos in tr["abandoned"]:
-        stats["requests"] = stats.get("requests", 0) + 1
-        ex = ev[pos - 1]
-        # the matching Enter of the top-level context that was left at event `pos`
-        n = 0
-        cnt = 0
-        start = None
-        for i, e in enumerate(ev[:pos]):
-            if e["a"] == "Enter":
-                cnt += 1
-                if e["par"] == 0 and e["t"] == ex["t"]:
-                    n, start = cnt, i
-        root = {r: r for r in tr["roots"]}
-        issued = []
-        for e in ev[:pos]:
-            if e["a"] == "Spawn":
-                root[e["u"]] = root[e["t"]]
-        for e in ev[start:pos]:
-            if e["a"] == "WireStart" and root.get(e["t"]) == ex["t"]:
-                issued.append(e["tau"])
-        smp = [e for e in ev if e["a"] == "Sample" and e["n"] == n]
-        if smp and issued and smp[0]["rs"] > min(issued):
-            stats["sample_start_later_than_earliest_issued_request"] = stats.get("sample_start_later_than_earliest_issued_request", 0) + 1
-            stats.setdefault("example", {"sample_request_start": smp[0]["rs"], "earliest_wire_request_start": min(issued), "sample_service_time": smp[0]["st"]})
-
-
 def run_cases(cases, out, label, feats=None, chunk=400):
     """Executes the cases on the real code, validates the recordings with TLC; returns the traces."""
     traces = []
@@ -193,13 +163,6 @@ def run_cases(cases, out, label, feats=None, chunk=400):
         tid = "%s-%d" % (label, ci)
         crash = tr.pop("crash")
         tr["id"] = tid
-        if tr["abandoned"]:
-            # not an execution of the specified usage discipline (children awaited before the block is left): measured, not judged
-            _abandoned_stats(tr, out.extra.setdefault("failed_stream_with_siblings_in_flight", {}))
-            traces.append(None)
-            out.add_case({k: v for k, v in case.items() if k != "src"}, nontrivial=True)
-            continue
-        tr.pop("abandoned")
         traces.append(tr)
         index[tid] = (case, tr)
         if crash:
@@ -211,22 +174,23 @@ def run_cases(cases, out, label, feats=None, chunk=400):
         nctx = sum(1 for e in tr["ev"] if e["a"] == "Enter")
         norm = {k: v for k, v in case.items() if k != "src"}
         out.add_case(norm, nontrivial=nwire >= 2 and nctx >= 2)
-    valid = [t for t in traces if t is not None]
-    if len(valid) < len(traces):
-        out.note("%s: %d of %d cases not judged (a stream failed while sibling streams were in flight)" % (label, len(traces) - len(valid), len(traces)))
-    if not valid:
+    if not traces:
         raise tlc.MachineryError("no traces produced for %s" % label)
-    for c0 in range(0, len(valid), chunk):
-        part = valid[c0 : c0 + chunk]
+    for c0 in range(0, len(traces), chunk):
+        part = traces[c0 : c0 + chunk]
         verdicts = tracecheck.validate("ReqContext", "TraceReqContext", "TraceReqContext.cfg", part, name="c18trace", timeout=900)
         out.states += verdicts.n_events
         out.transitions += verdicts.n_events
         out.traces_validated += verdicts.accepted(len(part))
         pinned = {}
+        unawaited = set()
         details = {}
         for t in _extra_tuples(verdicts.result.out, ("N", "D")):
             if t[0] == "N":
-                pinned[t[1]] = bool(t[3])
+                if not t[2]:
+                    pinned[t[1]] = bool(t[3])
+                if not t[4]:
+                    unawaited.add(t[1])
             else:
                 details.setdefault(t[1], []).append((t[3], t[4], t[5], t[6], t[7]))
         for tid, fails in verdicts.l1.items():
@@ -238,6 +202,7 @@ def run_cases(cases, out, label, feats=None, chunk=400):
                 "clauses": clauses,
                 "level": case["kind"],
                 "behaviour": KNOWN_BEHAVIOUR if as_written else "other",
+                "discipline": UNAWAITED if tid in unawaited else "structured",
                 "kinds": _kinds(det),
             }
             txt = "; ".join("context %d recorded (%s, %s), wire requests on its behalf span (%s, %s)" % d for d in det[:3])
@@ -247,7 +212,7 @@ def run_cases(cases, out, label, feats=None, chunk=400):
                     {k: v for k, v in case.items() if k != "src"},
                     signature=sig,
                     detail="trace %s event %d: %s [ticks of 1/%d s; -1 absent, -2 None]%s"
-                    % (tid, fails[0][0], txt or "sample handed to the sampler differs", R.TPS, " (steps conform to the as-written transcription)" if as_written else ""),
+                    % (tid, fails[0][0], txt or "sample handed to the sampler differs", R.TPS, (" (steps conform to the as-written transcription)" if as_written else "") + (" (%s)" % UNAWAITED if tid in unawaited else "")),
                 )
             )
         for tid, lines in verdicts.l2.items():
@@ -257,6 +222,7 @@ def run_cases(cases, out, label, feats=None, chunk=400):
                 "trace %s: event %d (%s by task %s) is neither a step of the repaired nor of the as-written transcription in ReqContext.tla" % (tid, lines[0], ev.get("a"), ev.get("t"))
             )
         out.extra["traces_conforming_to_as_written_variant_only"] = out.extra.get("traces_conforming_to_as_written_variant_only", 0) + sum(1 for v in pinned.values() if v)
+        out.extra["traces_with_tasks_left_behind"] = out.extra.get("traces_with_tasks_left_behind", 0) + len(unawaited)
     return traces
 
 
@@ -280,10 +246,10 @@ def run(ctx, out):
         "nothing is claimed for a request context on whose behalf no wire request was issued",
         "a wire request that fails (timeout, API error: on_request_end is called by the client's exception hook, the exception leaves the with block) has "
         "been issued on behalf of the enclosing requests like any other; in scripts the exception is handled right outside the block it leaves",
-        "NOT judged: composite requests in which a stream fails while sibling streams are in flight - Composite.run_stream then leaves the request "
-        "without awaiting them (cancelled but not awaited, or not even cancelled when the failure surfaces in the trailing gather), i.e. outside the "
-        "structured usage discipline of the specification; such executions are detected by the recorder, counted and described in "
-        "coverage.failed_stream_with_siblings_in_flight",
+        "composite requests in which a stream fails while sibling streams are in flight are judged like all others: the requests of the sibling streams "
+        "have been issued on behalf of the composite request, too. The trace specification accepts steps under the guards of the as-written caller "
+        "(StreamsAwaited=FALSE: tasks may be left behind after a failure) so that such executions get an L1 verdict; coverage.traces_with_tasks_left_behind "
+        "counts them (0 on a tree where Composite awaits its streams)",
         "observation: the code under test gets a subclass instance of the real RequestContextHolder (calls the real method, then records) and the real "
         "RequestContextManager behind a delegating proxy; absent / None of a timing is read from the manager's ctx dict; asyncio task creation is "
         "seen through the loop's task factory",
@@ -303,11 +269,20 @@ def run(ctx, out):
     out.exhaustive = False
     cexs = []
     selftest = []
-    for cfg, expected in [("ReqContext.pinned.cfg", ("SpanStart", "SpanEnd")), ("ReqContext.pinned2.cfg", ("ViolationsOnlyThroughNone",))]:
+    for cfg, expected in [
+        ("ReqContext.pinned.cfg", ("SpanStart", "SpanEnd")),
+        ("ReqContext.pinned2.cfg", ("ViolationsOnlyThroughNone",)),
+        ("ReqContext.pinned3.cfg", ("SpanStart", "SpanEnd", "LeafExact")),
+    ]:
         wd = tlc.prepare_workdir("ReqContext", "c18pinned")
         res = tlc.run_tlc(wd, "MC_ReqContext", cfg, workers=4, timeout=300, allow_violation=True)
         if res.invariant_violated not in expected:
-            raise tlc.MachineryError("self-test failed: the as-written variant of the model (MinMaxPropagation=FALSE) does not violate %s in %s: %s" % ("/".join(expected), cfg, res.out[-800:]))
+            raise tlc.MachineryError("self-test failed: the as-written variant of the model does not violate %s in %s: %s" % ("/".join(expected), cfg, res.out[-800:]))
+        if cfg == "ReqContext.pinned3.cfg":
+            # the scenario itself leaves a task behind (that IS the as-written caller): nothing to execute on the repaired caller;
+            # the situation is exercised through the real Composite by the composite cases with a failing sub-request
+            selftest.append("%s: as-written caller (StreamsAwaited=FALSE) violates %s after %d steps, as expected" % (cfg, res.invariant_violated, len(res.counterexample) - 1))
+            continue
         selftest.append("%s: as-written variant (MinMaxPropagation=FALSE) violates %s after %d steps, as expected" % (cfg, res.invariant_violated, len(res.counterexample) - 1))
         cexs.append(script_from_counterexample(res, rnd))
     out.extra["model_selftest"] = selftest
@@ -331,22 +306,14 @@ def run(ctx, out):
     comps = [c for c in comps if not (R.dumps(c["clients"]) in seen or seen.add(R.dumps(c["clients"])))]
     out.note("leg S2C: %d composite cases projected from the TLC behaviours" % len(comps))
     ctraces = run_cases(comps, out, "simc", feats)
-    k = max(range(len(comps)), key=lambda i: len(ctraces[i]["ev"]) if ctraces[i] else 0)
+    k = max(range(len(comps)), key=lambda i: len(ctraces[i]["ev"]))
     out.sample({"source": "tlc-simulate -> composite", "clients": comps[k]["clients"], "recorded_samples": [e for e in ctraces[k]["ev"] if e["a"] == "Sample"][:4]})
     # ---- Leg C2S: cases not derived from TLC
     rs = [dict(R.random_script(random.Random(ctx.seed * 1000 + i)), src="random") for i in range(300 if quick else 4000)]
     run_cases(rs, out, "rnd", feats)
     rc = [dict(R.random_composite(random.Random(ctx.seed * 1000 + 500000 + i)), src="random") for i in range(250 if quick else 3000)]
     rtraces = run_cases(rc, out, "rndc", feats)
-    k = next(i for i in range(len(rc)) if rtraces[i])
-    out.sample({"source": "random composite", "clients": rc[k]["clients"], "recorded_samples": [e for e in rtraces[k]["ev"] if e["a"] == "Sample"][:3]})
-    ab = out.extra.get("failed_stream_with_siblings_in_flight")
-    if ab:
-        out.note(
-            "not judged (outside the usage discipline): %d composite requests in which a stream failed while sibling streams were in flight (cancelled, not awaited); "
-            "in %d of them the sample's request_start is later than the earliest wire request issued for the request"
-            % (ab.get("requests", 0), ab.get("sample_start_later_than_earliest_issued_request", 0))
-        )
+    out.sample({"source": "random composite", "clients": rc[0]["clients"], "recorded_samples": [e for e in rtraces[0]["ev"] if e["a"] == "Sample"][:3]})
     out.extra["features_exercised"] = feats
     for need in ACTIONS + ["Sample", "chunked-end", "several-clients", "nested", "concurrent-children", "composite-with-sub-requests", "exit-by-exception", "composite-with-failed-sub-request"]:
         if not feats.get(need):
@@ -361,9 +328,6 @@ def replay(ctx, case):
 
     out = Outcome(ctx.pid)
     traces = run_cases([case], out, "replay")
-    if traces[0] is None:
-        print("a stream failed while sibling streams were in flight: outside the usage discipline, not judged: %s" % out.extra)
-        return 0
     for e in traces[0]["ev"]:
         if e["a"] == "Sample":
             print("  sample of task %d: context %d request_start=%s service_time=%s dependent=%s" % (e["t"], e["n"], e["rs"], e["st"], e["deps"]))
